@@ -214,6 +214,13 @@ class Std(Scenario):
                     out.append(('suback', a, (('r' if live else 'd'), r.idx), tuple(codes)))
             elif r.kind == 'unsub':
                 out.append((kind, a, 'UNSUBACK', tgt))
+        if left('misack') > 0:
+            for r in w.reqs:
+                if r.addr == a and r.kind == 'pub' and r.pending and r.tx and r.msgId:
+                    if r.qos == 1:
+                        out.append(('misack', a, 'PUBREC', ('r', r.idx)))
+                    elif r.qos == 2 and not r.acked('PUBREC'):
+                        out.append(('misack', a, 'PUBACK', ('r', r.idx)))
         if left('stray') > 0:
             types = []
             if w.profile != 'sub':
